@@ -20,8 +20,10 @@ from harness import core
 from harness import c01
 from harness import c01_enc as enc
 from harness import c01_gen as gen
+from harness import c02_env
+from harness import c02_gen
 
-PROP_MODULES = ["OV.Props.C02"]
+PROP_MODULES = ["OV.Props.C02", "OV.Props.C02Collect"]
 
 
 def domains_used(nodes, acc: set):
@@ -106,7 +108,42 @@ def structural_oracle(fn, meta: dict, real_neutral, stats: Counter) -> list[str]
             problems.append(f"ModelProto main graph refers to attribute parameter @{r} (nothing binds it in a model)")
         if mp.ir_version < 3:
             problems.append(f"ir_version {mp.ir_version}")
+        problems += annotated_export_problems(fn, meta, stats)
     return problems
+
+
+def annotated_export_problems(fn, meta: dict, stats: Counter) -> list[str]:
+    """"strict mode … when inputs and outputs are typed": a program that DECLARES its return types is exported with
+    nothing overridden (`output_types=` above re-types every output and would hide a missing or wrong declared type);
+    every graph output must then carry a type, the declared one, and the model must pass the strict checker."""
+    import onnx
+
+    head = [ln for ln in meta["src"].split("\n") if ln.startswith("def ")]
+    if not head or "->" not in head[0]:
+        return []
+    stats["annotated_model_protos_checked"] += 1
+    names = [r for r, _ in meta["rets"]]
+    if len(set(names)) < len(names):
+        stats["annotated_duplicate_return_protos"] += 1
+    try:
+        mp = fn.to_model_proto()
+    except Exception as e:
+        return [f"to_model_proto() of an annotated function raises {type(e).__name__}: {str(e)[:160]}"]
+    out = []
+    want = [c01.type_proto(t, meta["shape"]).tensor_type.elem_type for _, t in meta["rets"]]
+    for k, o in enumerate(mp.graph.output):
+        et = o.type.tensor_type.elem_type if o.HasField("type") else 0
+        if et == 0:
+            out.append(f"output {k} ({o.name}) of to_model_proto() carries no type although the function declares "
+                       "its return types")
+        elif k < len(want) and et != want[k]:
+            out.append(f"output {k} ({o.name}) of to_model_proto(): declared element type {want[k]}, the proto says {et}")
+    try:
+        onnx.checker.check_model(mp, full_check=True)
+    except Exception as e:
+        out.append("onnx.checker.check_model(full_check=True) rejects to_model_proto() of an annotated function "
+                   "(declared types, nothing overridden): " + " ".join(str(e).split())[:200])
+    return out
 
 
 def main(run: core.Run) -> None:
@@ -114,7 +151,9 @@ def main(run: core.Run) -> None:
         "the ONNX checker's type/shape inference is an oracle, not a theorem",
         "nested function definitions (@graph) are outside the Lean model; their protos are checked by the "
         "checker and the scope walker only",
-        "opset-import bookkeeping (IRFunction.append_node, _to_model_proto) is audited on the real protos, not modelled",
+        "opset-import bookkeeping and the called-function collection (IRFunction.append_node, Converter._exit_scope, "
+        "get_called_functions, _to_model_proto) are modelled (OV.Model.C02Collect) and tied on worlds of script functions; "
+        "the model's input (domain, version, callee of every node) is read off the real function_ir objects",
     ]
     audit = run.prove(PROP_MODULES)
     findings = {f["id"]: f for f in run.open_findings()}
@@ -122,6 +161,21 @@ def main(run: core.Run) -> None:
     if run.replay_path:
         body = json.loads(open(run.replay_path).read())
         m = dict(body["case"]["meta"])
+        if m.get("env"):
+            stats, features = Counter(), Counter()
+            eties, efails = c02_env.run_stream(run, core.Driver("C02"), 0, stats, features, only_src=m["src"],
+                                               only_kwargs=m.get("kwargs"))
+            for t in eties:
+                print("REPLAY tie:", t["tie"], "\n real :", t["real"], "\n model:", t["model"])
+            for f in efails:
+                print("REPLAY structural:", f["what"])
+            if efails:
+                run.violation({"meta": m, "what": efails[0]["what"]}, "replayed case still fails: " + efails[0]["what"])
+            elif eties:
+                run.violation({"meta": m, "tie": eties[0]["tie"]}, "replayed correspondence still broken: " + eties[0]["tie"],
+                              no_input=True)
+            run.coverage.update(evaluations=stats.get("env_worlds", 0), distinct_nontrivial=1)
+            return
         res = c01.run_batches(run, [{"progs": [m], "seed": 1, "n_inputs": 1, "semantic": False, "structural": True}], 1)
         stats, features, ties, pf, sf, refusals = c01.merge(res)
         for t in ties:
@@ -154,6 +208,11 @@ def main(run: core.Run) -> None:
     sib = [gen.sibling_subscript_program(run.rng, f"s{k}") for k in range(run.size(40, 300))]
     col = [gen.name_collision_program(run.rng, f"u{k}", subscripts=(k % 2 == 0)) for k in range(run.size(50, 400))]
     ded = sib + col + [gen.nested_callee_program(run.rng, f"h{k}") for k in range(run.size(4, 30))]
+    # C02's own classes: block -> enclosing-scope subscript histories; declared return types x one value returned twice
+    ded += [c02_gen.after_block_subscript_program(run.rng, f"ab{k}") for k in range(run.size(40, 300))]
+    ded += [c02_gen.typed_duplicate_return_program(run.rng, f"td{k}") for k in range(run.size(20, 150))]
+    # must-pass regression cases of fixed findings (C02-D2: declared return types x nested function definition)
+    ded += c02_gen.regression_programs()
     for k in range(0, len(ded), 25):
         tasks.append({"progs": ded[k:k + 25], "seed": run.rng.randrange(1 << 30), "n_inputs": 1, "semantic": False,
                       "structural": True})
@@ -188,20 +247,33 @@ def main(run: core.Run) -> None:
         run.sample({"src": m["src"]})
     for m in near[:3]:
         run.sample({"near_miss": m["near_miss"], "src": m["src"]})
+    # second stream: import lists and ModelProto.functions of worlds of script functions (OV.Model.C02Collect)
+    eties, efails = c02_env.run_stream(run, core.Driver("C02"), run.size(100, 800), stats, features)
+    if eties and not efails:
+        # tie broken: the oracle ran on the same worlds and found nothing; widen the search before saying "no input"
+        _, more = c02_env.run_stream(run, core.Driver("C02"), run.size(300, 1500), Counter(), Counter())
+        efails += more
     gen_ties = [t for t in ties if not t["meta"].get("near_miss")]
     if gen_ties:
         _, ssf, sstats = c01.guarded_search(run, gen_ties, semantic=False, structural=True)
         sf += ssf
         stats.update(sstats)
-    sf = c01.split_known(run, sf, findings)
+    sf = c01.split_known(run, sf, findings) + efails
+    ties = ties + eties
     c01.verdict(run, audit, stats, features, ties, sf, "C02", PROP_MODULES, refusals)
     c01.require_coverage(stats, features,
                          ["export_ties", "verified_wf_checks_on_real_protos", "model_protos_checked",
                           "near_miss_programs", "refused_TranslationError", "refused_ValueError", "refused_SyntaxError",
                           "near_miss_loop-without-state", "near_miss_return-not-last",
-                          "near_miss_loop-var-read-after-loop", "near_miss_mixed-opset-in-branch", "corpus_programs"],
+                          "near_miss_loop-var-read-after-loop", "near_miss_mixed-opset-in-branch", "corpus_programs"]
+                         + ["annotated_model_protos_checked", "annotated_duplicate_return_protos"]
+                         + c02_env.REQUIRED_STATS,
                          ["subscript", "sibling-subgraphs", "sibling-for", "sibling-while", "sibling-if",
-                          "user-names-like-generated", "for", "while", "callee-calls-inside-control-flow"])
+                          "user-names-like-generated", "for", "while", "callee-calls-inside-control-flow"]
+                         + ["subscript-after-block", "subscript-after-nested-block", "typed-duplicate-return",
+                            "typed-duplicate-return-from-branch", "typed-duplicate-return-from-loop",
+                            "typed-duplicate-return-with-input", "regression-C02-D2"]
+                         + c02_env.REQUIRED_FEATURES)
     gen_refused = stats["refused"] - stats.get("near_miss_programs", 0) + sum(
         1 for f in sf if f.get("near_miss_accepted"))
     if stats["programs"] >= 20 and gen_refused > 0.3 * max(1, stats["programs"] - stats.get("near_miss_programs", 0)):
